@@ -19,10 +19,10 @@ import (
 )
 
 type ConvRule struct {
-	From     string `json:"from"` // as declared (short or full)
-	To       string `json:"to"`
-	Hook     int    `json:"hook"`
-	Outcome  string `json:"outcome"` // ok exit1 failed-message empty drop
+	From    string `json:"from"` // as declared (short or full)
+	To      string `json:"to"`
+	Hook    int    `json:"hook"`
+	Outcome string `json:"outcome"` // ok exit1 failed-message failed-message-and-objects empty drop
 }
 
 type ConvRequest struct {
@@ -65,7 +65,7 @@ func genConv(t *rapid.T) ConvCase {
 		seen[vs[a]+">"+vs[b]] = true
 		outcome := "ok"
 		if rapid.IntRange(0, 4).Draw(t, "bad") == 0 {
-			outcome = rapid.SampledFrom([]string{"exit1", "failed-message", "failed-message", "empty", "drop"}).Draw(t, "outcome")
+			outcome = rapid.SampledFrom([]string{"exit1", "failed-message", "failed-message", "failed-message-and-objects", "empty", "drop"}).Draw(t, "outcome")
 		}
 		c.Rules = append(c.Rules, ConvRule{From: spell(vs[a], "sf"), To: spell(vs[b], "st"), Hook: rapid.IntRange(0, 2).Draw(t, "hook"), Outcome: outcome})
 	}
@@ -122,6 +122,9 @@ func runConv(c ConvCase) (ev.Info, error) {
 			do = vh.Behaviour{Exit: 1, ConvertTo: full(r.To)}
 		case "failed-message":
 			do = vh.Behaviour{Conversion: &vh.File{Content: fmt.Sprintf(`{"failedMessage":"cannot convert in %s"}`, bname)}}
+		case "failed-message-and-objects":
+			// a partial result: the hook reports a failure and still writes objects
+			do = vh.Behaviour{ConvertTo: full(r.To), ConvertFailMsg: fmt.Sprintf("cannot convert in %s", bname)}
 		case "empty":
 			do = vh.Behaviour{}
 		case "drop":
@@ -274,7 +277,7 @@ func runConv(c ConvCase) (ev.Info, error) {
 				}
 			default:
 				failedAt = i
-				if iv.rule.Outcome == "failed-message" {
+				if iv.rule.Outcome == "failed-message" || iv.rule.Outcome == "failed-message-and-objects" {
 					failMsg = fmt.Sprintf("cannot convert in %s", iv.binding)
 				}
 			}
@@ -307,7 +310,7 @@ func runConv(c ConvCase) (ev.Info, error) {
 	return info, nil
 }
 
-const ruleConv = "1-3 scripted hooks declaring kubernetesCustomResourceConversion rules over 2-5 versions (short and full spellings, chains plus extra edges; each rule its own binding) assembled by the real operator; 1-4 ConversionReview requests with 1-3 objects through the real HTTP handler; per rule a scripted outcome (convert all objects / exit 1 / failedMessage / empty response / drop an object); oracle: hooks are invoked for a connected chain starting at the source, each receiving the previous output with the declared fromVersion/toVersion; Success with as many objects as requested and the desired apiVersion iff every step succeeded; otherwise Failed, with the hook's failedMessage when it wrote one, and no step after a failed one; no chain -> Failed without invocations; uid echoed. Non-trivial: a request whose shortest chain has >= 2 steps."
+const ruleConv = "1-3 scripted hooks declaring kubernetesCustomResourceConversion rules over 2-5 versions (short and full spellings, chains plus extra edges; each rule its own binding) assembled by the real operator; 1-4 ConversionReview requests with 1-3 objects through the real HTTP handler; per rule a scripted outcome (convert all objects / exit 1 / failedMessage / failedMessage together with converted objects / empty response / drop an object); oracle: hooks are invoked for a connected chain starting at the source, each receiving the previous output with the declared fromVersion/toVersion; Success with as many objects as requested and the desired apiVersion iff every step succeeded; otherwise Failed, with the hook's failedMessage when it wrote one, and no step after a failed one; no chain -> Failed without invocations; uid echoed. Non-trivial: a request whose shortest chain has >= 2 steps."
 
 func TestConversionE2E(t *testing.T) {
 	ev.Main(t, ev.Spec[ConvCase]{Property: "C15", Part: "e2e", Rule: ruleConv, Gen: genConv, Run: runConv, Journal: true})
